@@ -12,10 +12,10 @@ use serde_json::{json, Value};
 pub const DEF: PropDef = PropDef {
     id: "C01",
     level: "exploration",
-    rule: "cases = (dataset, query) pairs: datasets are subsets of a fixed 10-quad universe (same triple in default/g1/g2, chain, self-loop, numeric values, named-only quad) with and without an extra empty named graph (quick: the subsets of size <=1 or >=9; thorough: all 2048); queries are every AST of the generator grammar (qgen.rs): all sequences of <=2 (thorough: + <=3 over a core list) elements from ~90 shapes (12 triple templates, multi-pattern blocks, GRAPH <iri>/?g incl. empty group, UNION, nested groups, sub-SELECTs with DISTINCT/ORDER/LIMIT/GROUP BY, inner group-scoped filters) + FILTER at every position, BIND(CONCAT), VALUES with UNDEF, and every solution modifier (DISTINCT, projections, SELECT *, FROM/FROM NAMED, GROUP BY + SUM/MIN/MAX/AVG, ORDER BY, LIMIT); each pair is executed on a fresh database through execute_sparql_query (and, on the datasets of size >=9, also through the legacy execute_query_rayon_parallel2_volcano) and compared with the SPARQL-algebra reference evaluator (multiset equality; sortedness under ORDER BY; legal cut under LIMIT). Non-trivial = reference answer non-empty and query has >=2 operators; distinct = distinct (query, answer).",
+    rule: "cases = (dataset, query) pairs: datasets are subsets of a fixed 10-quad universe (same triple in default/g1/g2, chain, self-loop, numeric values, named-only quad) with and without an extra empty named graph (quick: the subsets of size <=1 or >=9; thorough: all 2048); queries are every AST of the generator grammar (qgen.rs): all sequences of <=2 (thorough: + <=3 over a core list) elements from ~90 shapes (12 triple templates, multi-pattern blocks, GRAPH <iri>/?g incl. empty group, UNION, nested groups, sub-SELECTs with DISTINCT/ORDER/LIMIT/GROUP BY, inner group-scoped filters) + FILTER at every position, BIND(CONCAT), VALUES with UNDEF, and every solution modifier (DISTINCT, projections, SELECT *, FROM/FROM NAMED, GROUP BY + SUM/MIN/MAX/AVG, ORDER BY, LIMIT); each pair is executed on a fresh database through execute_sparql_query (and, on the datasets of size >=9, also through the legacy execute_query_rayon_parallel2_volcano) and compared with the SPARQL-algebra reference evaluator (multiset equality; sortedness under ORDER BY; legal cut under LIMIT). Round-3 families (each with `fam_<family>_queries/_cases/_nonempty` and `x_<crossing>` vacuity counters, and a structural failure tag `q:<family>`): BIND inside an inner group (nested braces, UNION branch, GRAPH) whose target is also bound by a sibling element (VALUES, triple pattern, sub-select; both textual orders; below a further join), two inner groups binding the same target, a braced group holding only a BIND over constants (C01-only list: C16's tree comparison distinguishes `{ BIND }` from an inline BIND); simple comparisons with the constant on the LEFT (mirrored operator) and the order operators >, <=, and variable-variable <=, >, >= after the last element of every decorated base; GROUP BY without any aggregate (one key, two keys, a projected subset of the keys, with DISTINCT / ORDER BY / LIMIT, and as a sub-select joined with its base; sub-select S10 in every position); subject stars (>=3 default-scope patterns sharing the subject: the StarJoin rewrite is syntactic) in one or two triples blocks, with a variable predicate, two stars in one group, each under every filter (Filter(StarJoin)), VALUES/BIND decoration and FROM / FROM + FILTER (merged default graphs inside the star executor); labelled error-semantics family (C01-only list): `!` over a comparison of an in-scope but possibly unbound variable or over a division by zero, alone and under || / &&, and BIND(CONCAT) over an in-scope but possibly unbound argument - justified by SPARQL 1.1 17.2 / 18.5 Extend error semantics only, hence kept apart and tagged q:not_over_possible_error / q:bind_arg_possibly_unbound. Non-trivial = reference answer non-empty and query has >=2 operators; distinct = distinct (query, answer).",
     assumptions: &[
         "term universe U of DESIGN.md §2 (3 IRIs, 2 predicates, numeric literals 1/2, graphs g1,g2, empty g3, absent gx)",
-        "value model: terms are bare lexical forms; order comparisons, ORDER BY keys and aggregates only over numeric values; FILTER/BIND only over certainly bound in-scope variables (the property's quantifier)",
+        "value model: terms are bare lexical forms; order comparisons, ORDER BY keys and aggregates only over numeric values; in the main enumeration FILTER/BIND only mention certainly bound in-scope variables; the labelled error-semantics family mentions in-scope variables that may be unbound (still inside the property's quantifier: `variables in scope of their own group`); aggregates over possibly unbound values are NOT generated (whether an error inside SUM poisons the group is not fixed by the statement)",
         "reference evaluator harness/src/reference/sparql_eval.rs (self-tested against hand-computed cases)",
     ],
     run,
@@ -100,9 +100,149 @@ pub fn query_tags(s: &Select) -> Vec<String> {
     if s.limit.is_some() {
         t.push("q:limit".into());
     }
+    for f in family_tags(s) {
+        t.push(format!("q:{}", f));
+    }
     t.sort();
     t.dedup();
     t
+}
+
+fn expr_has_const_left(e: &Expr) -> bool {
+    match e {
+        Expr::Cmp(a, _, b) => !a.is_var() && b.is_var(),
+        Expr::ArithCmp(..) => false,
+        Expr::And(a, b) | Expr::Or(a, b) => expr_has_const_left(a) || expr_has_const_left(b),
+        Expr::Not(a) => expr_has_const_left(a),
+    }
+}
+
+fn arith_has_var_divisor(a: &Arith) -> bool {
+    match a {
+        Arith::Operand(_) => false,
+        Arith::Div(x, y) => {
+            let mut vs = std::collections::BTreeSet::new();
+            y.vars(&mut vs);
+            !vs.is_empty() || arith_has_var_divisor(x) || arith_has_var_divisor(y)
+        }
+        Arith::Add(x, y) | Arith::Sub(x, y) | Arith::Mul(x, y) => arith_has_var_divisor(x) || arith_has_var_divisor(y),
+    }
+}
+
+/// does the expression contain a `!` whose operand can raise an error (mentions a variable that is
+/// not certainly bound in the group, or divides by an expression containing a variable)?
+fn expr_not_over_possible_error(e: &Expr, certain: &std::collections::BTreeSet<String>, under_not: bool) -> bool {
+    match e {
+        Expr::Cmp(..) => {
+            let mut vs = std::collections::BTreeSet::new();
+            e.vars(&mut vs);
+            under_not && vs.iter().any(|x| !certain.contains(x))
+        }
+        Expr::ArithCmp(a, _, b) => {
+            let mut vs = std::collections::BTreeSet::new();
+            e.vars(&mut vs);
+            under_not && (vs.iter().any(|x| !certain.contains(x)) || arith_has_var_divisor(a) || arith_has_var_divisor(b))
+        }
+        Expr::And(a, b) | Expr::Or(a, b) => expr_not_over_possible_error(a, certain, under_not) || expr_not_over_possible_error(b, certain, under_not),
+        Expr::Not(a) => expr_not_over_possible_error(a, certain, true),
+    }
+}
+
+/// Structural families of the round-3 strengthenings (also used as failure tags `q:<family>` and as
+/// vacuity counters): computed from the AST only.
+pub fn family_tags(s: &Select) -> Vec<&'static str> {
+    fn walk(g: &Group, depth: usize, in_graph: bool, outer_sibling_vars: &std::collections::BTreeSet<String>, t: &mut Vec<&'static str>) {
+        let certain = g.certain_vars();
+        // default-scope subject star: >= 3 patterns of this group's triples blocks share a subject variable
+        if !in_graph {
+            let mut per_subject: std::collections::BTreeMap<String, usize> = Default::default();
+            for e in &g.0 {
+                if let Elem::Triples(ts) = e {
+                    for x in ts {
+                        if let T::Var(n) = &x.s {
+                            *per_subject.entry(n.clone()).or_insert(0) += 1;
+                        }
+                    }
+                }
+            }
+            if per_subject.values().any(|c| *c >= 3) {
+                t.push("star");
+                if g.0.iter().any(|e| matches!(e, Elem::Filter(_))) {
+                    t.push("star_filter");
+                }
+                if per_subject.values().filter(|c| **c >= 3).count() >= 2 {
+                    t.push("two_stars");
+                }
+            }
+        }
+        for (k, e) in g.0.iter().enumerate() {
+            // variables visible from the siblings of this element (and of its ancestors)
+            let mut sib = outer_sibling_vars.clone();
+            for (j, o) in g.0.iter().enumerate() {
+                if j != k {
+                    let mut vs = Vec::new();
+                    Group(vec![o.clone()]).visible_vars_ordered(&mut vs);
+                    sib.extend(vs);
+                }
+            }
+            match e {
+                Elem::Filter(x) => {
+                    if expr_has_const_left(x) {
+                        t.push("cmp_const_left");
+                    }
+                    if expr_not_over_possible_error(x, &certain, false) {
+                        t.push("not_over_possible_error");
+                    }
+                }
+                Elem::Bind(args, out) => {
+                    if depth > 0 {
+                        t.push("bind_in_inner_group");
+                        if outer_sibling_vars.contains(out) {
+                            t.push("bind_target_shared_with_sibling");
+                        }
+                        if g.0.len() == 1 {
+                            t.push("lone_bind_group");
+                        }
+                    }
+                    let before: std::collections::BTreeSet<String> = Group(g.0[..k].to_vec()).certain_vars();
+                    if args.iter().any(|a| matches!(a, T::Var(n) if !before.contains(n))) {
+                        t.push("bind_arg_possibly_unbound");
+                    }
+                }
+                Elem::Graph(_, inner) => walk(inner, depth + 1, true, &sib, t),
+                Elem::Nested(inner) => walk(inner, depth + 1, in_graph, &sib, t),
+                Elem::Union(bs) => {
+                    for b in bs {
+                        walk(b, depth + 1, in_graph, &sib, t);
+                    }
+                }
+                Elem::Sub(sub) => {
+                    if !sub.group_by.is_empty() && !sub.has_aggregate() {
+                        t.push("sub_group_by_no_agg");
+                    }
+                }
+                _ => {}
+            }
+        }
+    }
+    let mut t = Vec::new();
+    walk(&s.pattern, 0, false, &Default::default(), &mut t);
+    if !s.group_by.is_empty() && !s.has_aggregate() {
+        t.push("group_by_no_agg");
+    }
+    if t.contains(&"star") && !s.from.is_empty() {
+        t.push("star_from");
+    }
+    t.sort();
+    t.dedup();
+    t
+}
+
+/// the query list of a scope: the shared generator list plus the C01-only round-3 families
+pub fn query_list(scope: Scope) -> Vec<Select> {
+    let mut q = qgen::queries(scope);
+    q.extend(qgen::c01_only(scope));
+    q
 }
 
 #[derive(Clone, Copy, PartialEq, Eq, Debug)]
@@ -133,7 +273,7 @@ fn case_json(scope: Scope, qi: usize, text: &str, mask: u32, eg: bool, entry: En
     json!({"scope": format!("{:?}", scope), "qindex": qi, "query": text, "dataset_mask": mask, "empty_graph": eg, "entry": format!("{:?}", entry)})
 }
 
-fn check_one(out: &mut ShardOut, scope: Scope, qi: usize, s: &Select, text: &str, mask: u32, eg: bool, ds: &Dataset, record_stats: bool) {
+fn check_one(out: &mut ShardOut, scope: Scope, qi: usize, s: &Select, text: &str, mask: u32, eg: bool, ds: &Dataset, record_stats: bool, fam: &[&'static str]) {
     let ans = match sparql_eval::eval_select(s, ds) {
         Ok(a) => a,
         Err(e) => {
@@ -146,6 +286,7 @@ fn check_one(out: &mut ShardOut, scope: Scope, qi: usize, s: &Select, text: &str
             out.nontrivial(&(text, &ans.rows));
         }
         out.outcome(&ans.rows);
+        family_counters(out, s, ds, &ans, fam);
     }
     for entry in [Entry::Query, Entry::Legacy] {
         if entry == Entry::Legacy && mask.count_ones() < 9 && record_stats {
@@ -167,11 +308,74 @@ fn check_one(out: &mut ShardOut, scope: Scope, qi: usize, s: &Select, text: &str
     }
 }
 
+/// Vacuity counters of the round-3 families: how many executed pairs belong to each family, how many
+/// of them have a non-empty reference answer, and - per family - how many really cross what the
+/// family is meant to cross (the join on a BIND target discards solutions, grouping merges solutions,
+/// a BIND target stays unbound, a filter removes solutions).
+fn family_counters(out: &mut ShardOut, s: &Select, ds: &Dataset, ans: &sparql_eval::Answer, fam: &[&'static str]) {
+    if fam.is_empty() {
+        return;
+    }
+    for f in fam {
+        out.count(&format!("fam_{}_cases", f), 1);
+        if !ans.rows.is_empty() {
+            out.count(&format!("fam_{}_nonempty", f), 1);
+        }
+    }
+    let rows_of = |q: &Select| sparql_eval::eval_select(q, ds).map(|a| a.rows.len()).unwrap_or(0);
+    if fam.contains(&"bind_target_shared_with_sibling") {
+        let mut r = s.clone();
+        r.pattern = qgen::rename_inner_bind_targets(&s.pattern);
+        r.proj = Proj::Star;
+        if rows_of(&r) > ans.rows.len() {
+            out.count("x_bind_target_join_discards_solutions", 1);
+        }
+    }
+    if fam.contains(&"group_by_no_agg") {
+        let mut r = s.clone();
+        r.group_by.clear();
+        r.distinct = false;
+        r.limit = None;
+        let mut me = s.clone();
+        me.limit = None;
+        me.distinct = false;
+        if rows_of(&r) > rows_of(&me) {
+            out.count("x_group_by_no_agg_merges_solutions", 1);
+        }
+    }
+    if fam.contains(&"bind_arg_possibly_unbound") {
+        if let Some(ci) = ans.columns.iter().position(|c| c == "n") {
+            if ans.rows.iter().any(|r| r[ci].is_none()) {
+                out.count("x_bind_target_left_unbound", 1);
+            }
+        }
+    }
+    if fam.contains(&"not_over_possible_error") || fam.contains(&"cmp_const_left") || fam.contains(&"star_filter") {
+        let mut r = s.clone();
+        r.pattern = qgen::strip_filters(&s.pattern);
+        let dropped = rows_of(&r) > ans.rows.len();
+        for f in ["not_over_possible_error", "cmp_const_left", "star_filter"] {
+            if fam.contains(&f) && dropped && s.limit.is_none() && !s.distinct {
+                out.count(&format!("x_{}_filter_removes_solutions", f), 1);
+            }
+            if fam.contains(&f) && dropped && !ans.rows.is_empty() && s.limit.is_none() && !s.distinct {
+                out.count(&format!("x_{}_filter_keeps_some_removes_some", f), 1);
+            }
+        }
+    }
+}
+
 fn run(ctx: &Ctx) -> ShardOut {
     let mut out = ShardOut::default();
     let scope = if ctx.thorough() { Scope::Thorough } else { Scope::Quick };
-    let qs = qgen::queries(scope);
+    let qs = query_list(scope);
     let texts: Vec<String> = qs.iter().map(|s| print_select(s, Layout::Canonical)).collect();
+    let fams: Vec<Vec<&'static str>> = qs.iter().map(family_tags).collect();
+    if ctx.shard == 0 {
+        for f in fams.iter().flatten() {
+            out.count(&format!("fam_{}_queries", f), 1);
+        }
+    }
     let dsl = dataset_list(ctx.thorough());
     out.count("queries", if ctx.shard == 0 { qs.len() as u64 } else { 0 });
     out.count("datasets", if ctx.shard == 0 { dsl.len() as u64 } else { 0 });
@@ -187,7 +391,7 @@ fn run(ctx: &Ctx) -> ShardOut {
                 out.capped.push(format!("wall-clock cap: stopped at dataset {} of {} (datasets before it completed for this shard)", di, dsl.len()));
                 break 'outer;
             }
-            check_one(&mut out, scope, qi, s, &texts[qi], *mask, *eg, &ds, true);
+            check_one(&mut out, scope, qi, s, &texts[qi], *mask, *eg, &ds, true, &fams[qi]);
             if out.samples.len() < 3 && *mask == 1023 && qi % 997 == 5 {
                 out.sample(json!({"query": texts[qi], "dataset_mask": mask, "empty_graph": eg}));
             }
@@ -203,7 +407,7 @@ fn replay(_ctx: &Ctx, case: &Value) -> ShardOut {
         Some("Tiny") => Scope::Tiny,
         _ => Scope::Quick,
     };
-    let qs = qgen::queries(scope);
+    let qs = query_list(scope);
     let qi = case["qindex"].as_u64().unwrap_or(0) as usize;
     let want = case["query"].as_str().unwrap_or("");
     let s = match qs.get(qi).filter(|s| print_select(s, Layout::Canonical) == want).or_else(|| qs.iter().find(|s| print_select(s, Layout::Canonical) == want)) {
@@ -216,6 +420,6 @@ fn replay(_ctx: &Ctx, case: &Value) -> ShardOut {
     let mask = case["dataset_mask"].as_u64().unwrap_or(0) as u32;
     let eg = case["empty_graph"].as_bool().unwrap_or(false);
     let ds = dataset_from_mask(mask, eg);
-    check_one(&mut out, scope, qi, s, want, mask, eg, &ds, false);
+    check_one(&mut out, scope, qi, s, want, mask, eg, &ds, false, &[]);
     out
 }
